@@ -1,6 +1,6 @@
 (* C11 — Builder tuning parameters never change search results. *)
 From DV Require Import Model.Base Model.Nfa Model.BwBuild Model.BwSearch Model.Utf8 Model.CwBuild Model.Api Model.Spec
-     Model.Cert Proofs.BwCert Proofs.Leftmost Proofs.BwLeftmost Proofs.Utf8Props Proofs.CwCert.
+     Model.Cert Proofs.BwCert Proofs.Leftmost Proofs.BwLeftmost Proofs.Utf8Props Proofs.CwCert Proofs.TrieInv Proofs.BuiltAutomata.
 Local Open Scope N_scope.
 
 (* Two byte-wise automata that pass the certificate checker for the same pattern/value pairs --
@@ -68,3 +68,18 @@ Example c11_hypotheses_met :
   | _, _ => False
   end.
 Proof. vm_compute. repeat split; reflexivity. Qed.
+
+(* C11 as a theorem about the BUILDER (byte-wise, standard kind): whatever num_free_blocks, the
+   automata construction returns for the same patterns answer all three standard searches
+   identically on every haystack (each equals the specification: builder theorem, see C01). *)
+Theorem bw_num_free_blocks_is_irrelevant :
+  forall (V : Type) (veqb : V -> V -> bool), (forall a b, veqb a b = true <-> a = b) ->
+  forall nfb1 nfb2 (pvs : list (list N * V)) (A1 A2 : bw_automaton V),
+    (forall p v, In (p, v) pvs -> Forall (fun b => b < 256) p) -> 4 * total_len V pvs <= U32_MAX - 1 ->
+    bw_build_with_values V Standard nfb1 pvs = Ok A1 -> bw_build_with_values V Standard nfb2 pvs = Ok A2 ->
+  forall h, Forall (fun b => b < 256) h ->
+    bw_find_overlapping_iter V A1 h = bw_find_overlapping_iter V A2 h
+    /\ bw_find_iter V A1 h = bw_find_iter V A2 h
+    /\ bw_find_overlapping_no_suffix_iter V A1 h = bw_find_overlapping_no_suffix_iter V A2 h.
+Proof. exact built_nfb_irrelevant. Qed.
+Print Assumptions bw_num_free_blocks_is_irrelevant.
